@@ -53,7 +53,7 @@ CHECKS.update({
     'C06': dict(level=EX, engine='E3 CrossHair', design='3/C06',
                 technique='CrossHair path exploration of the real format() over a seeded slice of the verification grammar and over lexeme choices x 14 option sets; oracle re-lexes the output with the real lexer',
                 text='explored, not proven: every script of the slice/lexeme bound under each of 14 option sets keeps exactly its sequence of non-whitespace tokens and its statement count. The filter code rewrites trees by object identity and C-level joins; no SMT encoding of it is within reach, so the claim is exploration only.',
-                note='1/6779 (quick) or 1/211 (thorough) of 338 688 generated scripts per option set, slice chosen by VERIF_SEED; other option combinations outside'),
+                note='1/6779 (quick) or 1/499 (thorough) of 544 320 generated scripts per option set, slice chosen by VERIF_SEED; other option combinations outside'),
     'C08': dict(level=MC, engine='E3 CrossHair + E1', design='3/C08',
                 technique='CrossHair symbolic execution of the real token filters (symbolic literal body, unbounded symbolic width, symbolic marker; token type x value x case tables) + E1 SMT queries on what the filters assume about lexer tokens + CrossHair over strip_comments on lexeme choices',
                 text='the token-stream filters are pure maps, confirmed over all paths incl. ANY truncation width; z3 shows every String.Single token is quote-delimited and every identifier token non-blank (the seams the filters rely on); strip_comments is explored end-to-end. One known finding (adjacent comments).',
@@ -65,7 +65,7 @@ CHECKS.update({
     'C10': dict(level=EX, engine='E3 CrossHair', design='3/C10',
                 technique='CrossHair path exploration of the real format() over a seeded slice of the verification grammar x 14 option sets with normal-form oracles on the re-lexed output',
                 text='explored, not proven: strip_whitespace / operator spacing / reindent normal forms and the two fixed points hold on every script of the slice.',
-                note='1/3389 (quick) or 1/211 (thorough) of 338 688 scripts per option set'),
+                note='1/3389 (quick) or 1/211 (thorough) of 544 320 scripts per option set'),
     'C11': dict(level=MC, engine='E1 two-copy + E2 + E3', design='3/C11',
                 technique='two-copy SMT queries over two symbolic texts (tokenizer model, z3); exhaustive comparison of the translated splitter\'s predicate tables over respellings; CrossHair on is_keyword and on parse() of respelled templates',
                 text='z3: two texts of <= 7(6)/9 characters that differ only in inter-token / intra-keyword whitespace characters or in keyword letter case have the same non-whitespace tokens; the translated splitter cannot distinguish respellings of a keyword (except the listed GO finding); tree shape, node classes and get_type are identical for 14 templates x 24 respellings.',
